@@ -48,28 +48,57 @@ func (core *JApiCore) addMacro(d *directive.Directive) *jerr.JApiError {
 func (core *JApiCore) checkMacroForRecursion() *jerr.JApiError {
 	// In the order of definition: which error is reported must not depend on the
 	// iteration order of a map.
+	c := macroRecursionChecker{
+		macro:      core.macro,
+		inProgress: make(map[string]struct{}, len(core.macro)),
+		done:       make(map[string]struct{}, len(core.macro)),
+	}
 	for _, macroName := range core.macroNames {
-		if je := findPaste(macroName, core.macro[macroName]); je != nil {
+		if je := c.checkMacro(macroName); je != nil {
 			return je
 		}
 	}
 	return nil
 }
 
-func findPaste(macroName string, d *directive.Directive) *jerr.JApiError {
-	if d.Type() == directive.Paste {
-		switch d.NamedParameter("Name") {
-		case "":
-			return d.KeywordError(fmt.Sprintf("%s (%s)", jerr.RequiredParameterNotSpecified, "Name"))
+// macroRecursionChecker looks for a macro which reaches itself through any chain
+// of PASTE directives (depth-first search over the macro call graph).
+type macroRecursionChecker struct {
+	macro      map[string]*directive.Directive
+	inProgress map[string]struct{}
+	done       map[string]struct{}
+}
 
-		case macroName:
+func (c *macroRecursionChecker) checkMacro(name string) *jerr.JApiError {
+	if _, ok := c.done[name]; ok {
+		return nil
+	}
+	c.inProgress[name] = struct{}{}
+	je := c.findPaste(c.macro[name])
+	delete(c.inProgress, name)
+	if je == nil {
+		c.done[name] = struct{}{}
+	}
+	return je
+}
+
+func (c *macroRecursionChecker) findPaste(d *directive.Directive) *jerr.JApiError {
+	if d.Type() == directive.Paste {
+		name := d.NamedParameter("Name")
+		if name == "" {
+			return d.KeywordError(fmt.Sprintf("%s (%s)", jerr.RequiredParameterNotSpecified, "Name"))
+		}
+		if _, ok := c.inProgress[name]; ok {
 			return d.KeywordError(jerr.RecursionIsProhibited)
 		}
-	} else if d.Children != nil {
-		for _, c := range d.Children {
-			if je := findPaste(macroName, c); je != nil {
-				return je
-			}
+		if _, ok := c.macro[name]; ok { // an undefined macro is reported when it is pasted
+			return c.checkMacro(name)
+		}
+		return nil
+	}
+	for _, child := range d.Children {
+		if je := c.findPaste(child); je != nil {
+			return je
 		}
 	}
 	return nil
